@@ -31,6 +31,7 @@ def _load_mutants(prop, mod):
 
 def _run_one(args):
     prop, modname, mut, src_root = args
+    _reset_caches()
     name, rel, old, new, expect = mut
     path = os.path.join(src_root, rel)
     try:
@@ -62,7 +63,11 @@ def _run_one(args):
             rules = sorted({f.rule for f in rep.findings})
             detail = "; ".join(f"{f.rule}:{f.construct}" for f in rep.findings[:4])
         except AnalysisError as e:
-            rules, detail = ["ANALYSIS-ERROR"], str(e)
+            if rep.findings:    # a located violation is never masked by a later shortfall
+                rules = sorted({f.rule for f in rep.findings})
+                detail = "; ".join(f"{f.rule}:{f.construct}" for f in rep.findings[:4])
+            else:
+                rules, detail = ["ANALYSIS-ERROR"], str(e)
     finally:
         shutil.rmtree(tmp, ignore_errors=True)
     if expect == "silent":
@@ -73,9 +78,17 @@ def _run_one(args):
     return (name, "ok" if ok else "FAILED", f"expected {expect}, reported {rules} [{detail}]")
 
 
+def _reset_caches():
+    """per-tree caches keyed by AST identity must not outlive the tree they were built for"""
+    from . import reading_rules, boolnorm
+    reading_rules._SINGLE.clear()
+    boolnorm.FUNCS.clear()
+
+
 def _run_seed(args):
     """apply a seeded patch to a scratch copy and run the property's analysis on it"""
     import subprocess
+    _reset_caches()
     prop, modname, name, patch, expect_detect = args
     tmp = tempfile.mkdtemp(prefix="aurelsa_seed_")
     try:
